@@ -78,6 +78,21 @@ PROPS = {
         "partial": ["error_branch_start_partial: the decision logic; that an attempt started at the commit head reads only final state is the pipeline theorem (C02)"],
         "explanation": "Theorems replay_error_prefix, post_execute_returns, error_branch_start_partial; fault enumeration against the oracle; findings F2, F5 repaired (witnesses run every time), F4 open.",
     },
+    "C05": {
+        "lean_modules": ["Props.C05", "Props.C16", "Props.C17", "Props.C15"],
+        "harness": [
+            e2e("mixed,invalid,lifecycle,code,precompile,conf,delegated", 140, 6000, configs="w1,w2,w3,fallback", schedules=4, label="termination"),
+            {"sub": "panics", "quick": {"cases": 10}, "thorough": {"cases": 400, "max-keys": 12}, "timeout": 7000},
+            {"sub": "kernel-wait", "quick": {"cases": 300}, "thorough": {"cases": 20000}, "timeout": KERNEL_TIMEOUT},
+            {"sub": "kernel-dep", "quick": {"cases": 300}, "thorough": {"cases": 20000}, "timeout": KERNEL_TIMEOUT},
+        ],
+        "rule": "termination: every generated block (all families incl. invalid transactions whose validity depends on earlier ones — errors parked behind the commit boundary —, fatal precompile errors, mid-block replay, delegated-safety policies) runs on the real scheduler with 1-3 workers + finality + commit thread, free and under seeded random / PCT / sticky controller schedules in which park/unpark are emulated by the token contract and NO stall timer exists: a state in which no enrolled thread can run is a deadlock, 60000 consecutive idle (spin / recheck) steps or 400000 steps are a livelock, both reported with the schedule; a run that does not return within 60-90 s trips the process watchdog; the result must also equal the in-order oracle; panics: for every database key a block touches, a database that panics on that key: execute() must return by unwinding with the ORIGINAL panic, every scheduler thread must leave, no stall; kernel-wait / kernel-dep: trace conformance of WaitSlot and TxDependency with their proven models (a waiter or a parked transaction left behind is a stall); " + E2E_RULE,
+        "trusted_base": E2E_TRUST,
+        "modelled": ["the pipeline (Model/Sched.lean), the dependency graph (Model/TxDep.lean), the validation cursor (Model/Cursor.lean) and the wait slot (Model/WaitSlot.lean) as for C02, C16, C15, C17", "which transaction a worker claims is left to the scheduler of the pipeline model (arbitrary), so fair termination is not expressible there"],
+        "assumptions": ["threads are scheduled fairly by the OS (the controller's fairness valve plays that role)", "user code (database, precompiles) returns or panics"],
+        "partial": ["fair termination (absence of livelock) and the composition of the four component theorems are NOT one theorem: the models prove that no reachable state is stuck (progress, head_progress), that no dependency edge, claimable transaction, validation index or wake-up is lost (C16, C15, C17); that the real scheduler terminates under every fair schedule is decided by the bounded controller exploration with deadlock / livelock detection, not by proof", "joins / panic propagation (CancelOnPanic guards) are exercised by panic injection only"],
+        "explanation": "Theorems progress and head_progress (Props/C05): in every reachable state of the pipeline model with an uncommitted transaction some action is enabled, and one can be chosen at the commit head (commit, or a step of / claim on transaction fin); with claimable_covered, claimable_quiescent, edge_covered, stale_edge_harmless (C16), no_skip, rewind_reoffers (C15), no_lost_wakeup, wakeup_within_two_steps (C17). Tied to the code by running the real threads under a deterministic controller that knows which threads are runnable.",
+    },
     "C06": {
         "lean_modules": ["Props.C06"],
         "harness": [e2e("mixed,lifecycle,code,invalid,precompile", 200, 3000, configs="w1,w2,w4,seq,fallback,minpar,mineq", schedules=1, label="config-matrix")],
